@@ -606,6 +606,53 @@ m("C06","plan-start-from-wallclock","x/storage/keeper/msg_server_buy_storage.go"
 m("C06","goroutine-in-handler","x/oracle/keeper/msg_server_feeds.go",
   '	k.SetFeed(ctx, feed)\n\n	return &types.MsgUpdateFeedResponse{}, nil','	go k.SetFeed(ctx, feed)\n\n	return &types.MsgUpdateFeedResponse{}, nil',"C06/R1","go-statement")
 
+# ---- C05
+m("C05","network-share-unguarded","x/storage/keeper/rewards.go",
+  """	if totalSize <= 0 { // no stored bytes to weigh rewards against, and nothing to divide by
+		return
+	}
+""","","C05/R1","rewardAllProviders:quo","inverse of fix F4")
+m("C05","checkwindow-validator-allows-zero","x/storage/types/params.go",
+  """func validateCheckWindow(i interface{}) error {
+	v, ok := i.(int64)
+	if !ok {
+		return fmt.Errorf("invalid parameter type: %T", i)
+	}
+
+	if v <= 1 {""","""func validateCheckWindow(i interface{}) error {
+	v, ok := i.(int64)
+	if !ok {
+		return fmt.Errorf("invalid parameter type: %T", i)
+	}
+
+	if v < 0 {""","C05/R1","RunRewardBlock:div")
+m("C05","proof-interval-from-message","x/storage/keeper/msg_server_post_file.go",
+  'ProofInterval: window,','ProofInterval: window + msg.Expires,',"C05/R1","getRoundedWindow:div")
+m("C05","emission-unclamped","x/jklmint/utils/mint.go",
+  """	if mint < 0 { // the emission never goes below zero
+		return 0
+	}
+	return mint""","""	return mint""","C05/R2","BlockMint:coin")
+m("C05","postfile-size-unvalidated","x/storage/types/message_post_file.go",
+  'if msg.FileSize <= 0 {','if msg.FileSize < -1 {',"C05/R3","postfile:unvalidated:FileSize")
+m("C05","panic-in-reward-helper","x/storage/keeper/rewards.go",
+  """	burned, err := strconv.ParseInt(prov.BurnedContracts, 10, 64)
+	if err != nil {
+		ctx.Logger().Error("cannot parse providers burn count")
+		return
+	}""","""	burned, err := strconv.ParseInt(prov.BurnedContracts, 10, 64)
+	if err != nil {
+		panic(err)
+	}""","C05/R4","burnContract:explicit-panic")
+m("C05","index-second-key-part","x/storage/keeper/rewards.go",
+  'providerAddress := pks[0]','providerAddress := pks[1]',"C05/R5","manageProof:const-index:1")
+m("C05","staker-share-subtracts","x/jklmint/keeper/mint.go",
+  'stakerCoinValue := stakerRatio.MulInt64(mintTokens).TruncateInt64()','stakerCoinValue := stakerRatio.MulInt64(mintTokens).TruncateInt64() - 1',"C05/R2","mintStaker:coin")
+m("C05","endblock-does-work","x/oracle/module.go",
+  'func (am AppModule) EndBlock(_ sdk.Context, _ abci.RequestEndBlock) []abci.ValidatorUpdate {','func (am AppModule) EndBlock(ctx sdk.Context, _ abci.RequestEndBlock) []abci.ValidatorUpdate {\n	_ = am.keeper.GetAllFeeds(ctx)',"C05/R0","endblock:empty")
+m("C05","mustnewdec-on-variable","x/storage/keeper/rewards.go",
+  'networkValue := sdk.NewDec(totalSize)','networkValue := sdk.MustNewDecFromStr(fmt.Sprintf("%d", totalSize))',"C05/R4","MustNewDecFromStr")
+
 for x in M:
     d = os.path.join(os.path.dirname(os.path.abspath(__file__)), x["property"])
     os.makedirs(d, exist_ok=True)
